@@ -19,19 +19,19 @@ import (
 )
 
 type Solver struct {
-	cmd      *exec.Cmd
-	in       io.WriteCloser
-	out      *bufio.Reader
-	log      io.Writer // optional transcript
-	declared map[string]bool
-	nSat     int
-	nUnsat   int
-	nUnknown int
-	nErr     int
-	wall     time.Duration
+	cmd        *exec.Cmd
+	in         io.WriteCloser
+	out        *bufio.Reader
+	log        io.Writer // optional transcript
+	declared   map[string]bool
+	nSat       int
+	nUnsat     int
+	nUnknown   int
+	nErr       int
+	wall       time.Duration
 	wallValues time.Duration
-	timeout  int // ms
-	name     string
+	timeout    int // ms
+	name       string
 }
 
 func NewSolver(kind string, timeoutMs int, transcript io.Writer) (*Solver, error) {
